@@ -8,6 +8,7 @@ import (
 	"pgregory.net/rapid"
 
 	datatransfer "github.com/filecoin-project/go-data-transfer/v2"
+	"github.com/filecoin-project/go-data-transfer/v2/message"
 
 	"verif/harness/dbl"
 	"verif/harness/gen"
@@ -165,7 +166,18 @@ func TestC10_MgrxCleanup(t *testing.T) {
 			return
 		}
 		withError := rapid.Bool().Draw(t, "withError")
-		if withError {
+		ending := rapid.SampledFrom([]string{"close", "complete"}).Draw(t, "ending")
+		if ending == "complete" {
+			// a normal completion: Completing is persisted before Completed
+			if st.Status() == datatransfer.Requested || st.Status() == datatransfer.Queued || st.Status() == datatransfer.AwaitingAcceptance {
+				r.toOngoing(c)
+			}
+			_ = r.ev().OnChannelCompleted(c.chid, nil)
+			if c.selfInit() {
+				m, _ := message.CompleteResponse(c.chid.ID, true, false, nil)
+				deliver(r, c.other, m, false)
+			}
+		} else if withError {
 			_ = r.mgr.(closer).CloseDataTransferChannelWithError(bg(), c.chid, fmt.Errorf("boom"))
 		} else {
 			_ = r.mgr.CloseDataTransferChannel(bg(), c.chid)
@@ -204,7 +216,7 @@ func TestC10_MgrxCleanup(t *testing.T) {
 		}
 		sp.Eval()
 		if checked > 0 {
-			fp := stats.FP("cleanup", c.role, withError)
+			fp := stats.FP("cleanup", c.role, withError, ending)
 			sp.Nontrivial(fp)
 			sp.Class("restart_in_cleanup_status")
 		}
